@@ -53,6 +53,16 @@ def run(ctx: Ctx):
         t_obj = ctx.rng.choice(TOLS) if mode in (0, 2) else 0
         t_res = ctx.rng.choice(TOLS) if mode in (1, 2) else 0
         jobs.append((p, m, t_obj, t_res))
+    # directed stream (hypothesis: tolerance pruning of the REAL objectives uses objective_tolerance, whatever the resource
+    # tolerance): both tolerances set with resource_usage_tolerance >> objective_tolerance, a tight buffer and a costly
+    # outer memory so that usage trades against energy, divisor-rich bounds so that in-flight pruning has choices to drop
+    for (M, KN, glb_bytes) in ([(12, 20, 25), (30, 30, 51)] if ctx.thorough else [(12, 20, 25)]):
+        d = ML.gen_params(ctx.rng, n_einsums=1, kind="matmuls", levels=2, finite_glb=True)
+        d["workload"].update(M=M, KN=KN)
+        d.update(bits=8, glb_size=glb_bytes * 8, mm_energy=1000, glb_energy=1, mac_energy=1, glb_leak=0,
+                 mm_tp="inf", glb_tp="inf", mac_tp=1, glb_keep="~MainMemory")
+        for (t_obj, t_res) in [(0.01, 0.5), (0.1, 0.5)]:
+            jobs.append((d, "ENERGY", t_obj, t_res))
     results = ML.pool_map(work, jobs, workers=8)
     drv = ctx.driver()
     for (p, m, t_obj, t_res), res in zip(jobs, results):
